@@ -31,7 +31,10 @@ func (j c16AbortJob) line() string {
 func c16OpenAbort(j c16AbortJob) (fails []c16Fail) {
 	fail := func(k, sig, f string, a ...any) { fails = append(fails, c16Fail{k, fmt.Sprintf(f, a...), sig}) }
 	var opening []byte
-	if j.kind == "telnet" {
+	if j.reject == "telnet-reset" { // data only: the client is reading when the reset arrives
+		opening = []byte("Welcome to the device, please wait")
+	}
+	if j.reject == "telnet-reset-negotiating" {
 		for i := 0; i < 40; i++ { // many questions, so that the client is busy answering when the peer drops
 			opening = append(opening, 255, 253, byte(1+i))
 		}
@@ -75,6 +78,8 @@ func c16AbortJobs(c *ctx) []c16AbortJob {
 		jobs = append(jobs,
 			c16AbortJob{"telnet", "shell", "telnet-reset", r.U64()},
 			c16AbortJob{"telnet", "shell", "telnet-eof", r.U64()},
+			c16AbortJob{"telnet", "shell", "telnet-reset-negotiating", r.U64()},
+			c16AbortJob{"telnet", "shell", "telnet-refused", r.U64()},
 			c16AbortJob{"standard", "shell", "handshake", r.U64()},
 			c16AbortJob{"standard", "netconf", "auth", r.U64()},
 			c16AbortJob{"standard", "shell", "channel", r.U64()},
